@@ -56,8 +56,14 @@ Definition is_add_ok (a : iadd) : bool := match a with IAddOk => true | _ => fal
 Definition refused_clean (c : rcase) (d : doc) : bool :=
   match d_conjs d with
   | [] => true
-  | cj :: _ => (36028797018963967 <? Z.abs (d_id d)) ||
-               negb (forallb (fun fe : fname * list expr => match alookup N.eqb (fst fe) (rk_fields c) with Some _ => true | None => false end) cj)
+  | cj :: rest => (36028797018963967 <? Z.abs (d_id d)) ||
+               negb (forallb (fun fe : fname * list expr => match alookup N.eqb (fst fe) (rk_fields c) with Some _ => true | None => false end) cj) ||
+               (* a document of ONE conjunction with ONE expression: if it was refused, that expression was, and nothing of
+                  it went into its field's container (the other fields may hold a catch-all bit no retrieval can reach) *)
+               match rest, cj with
+               | [], [(_, [_])] => true
+               | _, _ => false
+               end
   end.
 Definition all_accepted (c : rcase) : bool :=
   forallb (fun da => is_add_ok (snd da) || refused_clean c (fst da)) (rk_docs c).
@@ -83,6 +89,8 @@ Inductive astate :=
 | AFresh
 | AHinted (hs : list Z)
 | ADone (ps : option (list (Z * Z)))     (* after one retrieval from fresh/hinted: the satisfied pairs, when specified *)
+| AHintedDirty (hs : list Z)             (* a hinted scanner after a REFUSED retrieval, not Reset yet: what it holds depends on Go's map
+                                            order, but the hints still restrict -- whatever it returns lies inside them *)
 | AUnspec.
 
 Definition restrict (hs : list Z) (ps : list (Z * Z)) : list (Z * Z) :=
@@ -111,12 +119,20 @@ Definition spec_step (c : rcase) (st : astate) (op : rop) (r : rimpl) : bool * N
                   | _ => None end in
     let sig := match st with AHinted _ => 24%N | _ => (match rk_fields c with [] => 21%N | _ => 23%N end) end in
     let next := match st with AFresh | AHinted _ => ADone expect | _ => AUnspec end in
+    let inside hs (d : N) := existsb (fun h => N.eqb (u64_of h) d) hs in
+    match st, r with
+    | AHintedDirty hs, RIDocs l => (forallb (inside hs) l, 24%N, st)
+    | AHintedDirty hs, RIDocSet l => (forallb (fun z => existsb (Z.eqb z) hs) l, 24%N, st)
+    | AHintedDirty hs, RIErr => (true, 0%N, st)
+    | _, _ =>
     match r with
     | RIPanic => (false, 13%N, AUnspec)
-    | RIErr => (match st with AFresh | AHinted _ => negb (q_supported_rr c q) | _ => true end, 14%N, AUnspec)
+    | RIErr => (match st with AFresh | AHinted _ => negb (q_supported_rr c q) | _ => true end, 14%N,
+                match st with AHinted hs => AHintedDirty hs | _ => AUnspec end)
     | RIDocs l => (match expect with Some ps => eqb_list N.eqb l (docs_of ps) | None => true end, sig, next)
     | RIDocSet l => (match expect with Some ps => eqb_list Z.eqb (setZ l) (setZ (map fst ps)) && nodupZ l | None => true end, sig, next)
     | _ => (false, 27%N, AUnspec)
+    end
     end
   end.
 
